@@ -229,6 +229,35 @@ pub fn run(cfg: &Cfg) {
         sink.op(&format!("lstrip {} {}", hexs(rel), st), &ans, strips.as_ref().map(|v| !v.is_empty()).unwrap_or(false));
         sink.stat("lstrip");
     }
+    // ---- streaming digests: `calculate_hashes` on readers that cut the input in every way
+    hashes_cases(&mut sink, &mut r, if cfg.thorough { 6000 } else { 600 });
+    // ---- the link builder's own recording of single files (`add_material`, `add_product`)
+    for _ in 0..(if cfg.thorough { 300 } else { 40 }) {
+        let tmp = tempfile::Builder::new().prefix("itv-add-").tempdir().unwrap();
+        let len = *r.pick(&[0usize, 1, 55, 64, 1023, 1024, 1025, 5000, 20000]);
+        let data = r.bytes(len);
+        let path = tmp.path().join(*r.pick(&["a.txt", "with space", "\u{e9}.bin"]));
+        std::fs::write(&path, &data).unwrap();
+        let p = path.to_str().unwrap().to_string();
+        let vp = in_toto::models::VirtualTargetPath::new(p.clone()).unwrap();
+        let as_material = r.chance(1, 2);
+        let (vp2, p2) = (vp.clone(), p.clone());
+        let built = guarded(move || {
+            let b = in_toto::models::LinkMetadataBuilder::new().name("s".into());
+            if as_material { b.add_material(vp2).build() } else { b.add_product(vp2).build() }
+        });
+        let replay = format!("add_{} {} ({} bytes)", if as_material { "material" } else { "product" }, p2, len);
+        match built {
+            Ok(Ok(l)) => {
+                let m = if as_material { &l.materials } else { &l.products };
+                let want = hex(ring::digest::digest(&ring::digest::SHA256, &data).as_ref());
+                let got = m.get(&vp).and_then(|d| d.get(&in_toto::crypto::HashAlgorithm::Sha256)).map(|h| h.to_string());
+                sink.oracle(m.len() == 1 && got.as_deref() == Some(want.as_str()), "the digest a link builder records for a file is not the digest of its bytes", &replay);
+                sink.stat("builder-add/ok");
+            }
+            _ => sink.oracle(false, "the link builder fails to record an existing file", &replay),
+        }
+    }
     // ---- trees
     let n = if cfg.thorough { 4000 } else { 300 };
     for i in 0..n {
@@ -487,22 +516,59 @@ pub fn run(cfg: &Cfg) {
             let script = "echo out-text; echo err-text 1>&2; echo created > created-by-run.txt; \
                 for f in *; do if [ -f \"$f\" ] && [ ! -L \"$f\" ] && [ -s \"$f\" ] && [ \"$f\" != created-by-run.txt ]; then \
                 n=$(wc -c < \"$f\"); cp -p \"$f\" .keep-run; head -c \"$n\" /dev/zero | tr '\\0' 'Z' > \"$f\"; touch -r .keep-run \"$f\"; rm -f .keep-run; fi; done; exit 0";
-            let before = record_artifacts(&["."], None, None);
-            let run = guarded(|| in_toto_run("step", Some("."), &["."], &["."], &["sh", "-c", script], None, None, None));
-            let after = record_artifacts(&["."], None, None);
+            // variants of the call: with / without a signing key, hash-algorithm selections, strip
+            // prefixes, other material than product paths, an empty command, other exit statuses
+            let variant = (i / 5) % 6;
+            let pool = crate::meta::key_pool(0);
+            let key = if variant % 2 == 1 { Some(&pool[(i / 5) % pool.len()]) } else { None };
+            let algs: Option<&[&str]> = match variant { 2 => Some(&["sha512", "sha256"]), 3 => Some(&["sha512"]), _ => None };
+            let strips: Option<&[&str]> = if variant == 4 { Some(&["./", "sub/"]) } else { None };
+            let (status, cmd): (i32, Vec<&str>) = match variant {
+                5 => (0, vec![]),
+                1 => (3, vec!["sh", "-c", "echo out-text; echo err-text 1>&2; echo created > created-by-run.txt; exit 3"]),
+                _ => (0, vec!["sh", "-c", script]),
+            };
+            let before = record_artifacts(&["."], algs, strips);
+            let (k2, c2) = (key.map(|k| &k.key), cmd.clone());
+            let run = guarded(std::panic::AssertUnwindSafe(|| in_toto_run("step", Some("."), &["."], &["."], &c2, k2, algs, strips)));
+            let after = record_artifacts(&["."], algs, strips);
             std::env::set_current_dir(&old).unwrap();
+            sink.stat(&format!("run/variant-{}", variant));
             if let (Ok(b), Ok(Ok(mb)), Ok(a)) = (before, run, after) {
+                // a link signed by `in_toto_run` verifies under the key's public part, after a wire trip too
+                match key {
+                    Some(k) => {
+                        let ok1 = mb.verify(1, [k.public()]).is_ok();
+                        let ok2 = serde_json::to_vec(&mb).ok().and_then(|t| serde_json::from_slice::<in_toto::models::Metablock>(&t).ok()).map_or(false, |m2| m2.verify(1, [k.public()]).is_ok());
+                        sink.oracle(mb.signatures.len() == 1 && ok1 && ok2, "a link signed by in_toto_run does not verify under the signer's key", &op);
+                    }
+                    None => sink.oracle(mb.signatures.is_empty(), "in_toto_run without a key returns signatures", &op),
+                }
                 if let in_toto::models::MetadataWrapper::Link(l) = mb.metadata {
+                    sink.oracle(l.name == "step", "the link of a run does not carry the step's name", &op);
                     sink.oracle(l.materials == b, "materials of a run are not the artifacts as they were before the command", &op);
                     sink.oracle(l.products == a, "products of a run are not the artifacts as they are after the command", &op);
                     // independently of record_artifacts: every product digest is the digest of the bytes now on disk
-                    for (k, v) in &l.products {
-                        if let (Ok(c), Some(h)) = (std::fs::read(abs_root.join(k.value())), v.get(&in_toto::crypto::HashAlgorithm::Sha256)) {
-                            let want = hex(ring::digest::digest(&ring::digest::SHA256, &c).as_ref());
-                            sink.oracle(h.to_string() == want, "a product digest of a run is not the digest of the file as it is after the command", &op);
+                    if strips.is_none() {
+                        for (k, v) in &l.products {
+                            if let Ok(c) = std::fs::read(abs_root.join(k.value())) {
+                                if let Some(h) = v.get(&in_toto::crypto::HashAlgorithm::Sha256) {
+                                    let want = hex(ring::digest::digest(&ring::digest::SHA256, &c).as_ref());
+                                    sink.oracle(h.to_string() == want, "a product digest of a run is not the digest of the file as it is after the command", &op);
+                                }
+                                if let Some(h) = v.get(&in_toto::crypto::HashAlgorithm::Sha512) {
+                                    let want = hex(ring::digest::digest(&ring::digest::SHA512, &c).as_ref());
+                                    sink.oracle(h.to_string() == want, "a sha512 product digest of a run is not the digest of the file as it is after the command", &op);
+                                }
+                                sink.oracle(v.len() == algs.map_or(1, |a| a.len()), "a product of a run lacks a requested digest algorithm", &op);
+                            }
                         }
                     }
-                    sink.oracle(l.byproducts.stdout().as_deref() == Some("out-text\n") && l.byproducts.stderr().as_deref() == Some("err-text\n") && l.byproducts.return_value() == Some(0), "byproducts of a run are not the command's output streams and exit status", &op);
+                    if cmd.is_empty() {
+                        sink.oracle(l.byproducts == in_toto::models::byproducts::ByProducts::new() && l.materials == l.products, "a run without a command records byproducts or a change", &op);
+                    } else {
+                        sink.oracle(l.byproducts.stdout().as_deref() == Some("out-text\n") && l.byproducts.stderr().as_deref() == Some("err-text\n") && l.byproducts.return_value() == Some(status), "byproducts of a run are not the command's output streams and exit status", &op);
+                    }
                     sink.stat("run/ok");
                 }
             } else {
@@ -511,4 +577,118 @@ pub fn run(cfg: &Cfg) {
         }
     }
     sink.finish(&cfg.out, serde_json::json!({}));
+}
+
+// ---------------------------------------------------------------------------------------------
+// `calculate_hashes` on readers that cut the input in every way (`hashes` op, Model/Md.lean)
+
+/// a reader that hands out the data in the scheduled portions and records what each `read` call returned
+struct ChunkReader {
+    data: Vec<u8>,
+    pos: usize,
+    /// `Some(n)`: up to n bytes (0 = report the end although data is left); `None`: an I/O error
+    sched: Vec<Option<usize>>,
+    i: usize,
+    log: std::rc::Rc<std::cell::RefCell<Vec<String>>>,
+}
+
+impl std::io::Read for ChunkReader {
+    fn read(&mut self, buf: &mut [u8]) -> std::io::Result<usize> {
+        let step = self.sched.get(self.i).cloned().unwrap_or(Some(usize::MAX));
+        self.i += 1;
+        match step {
+            None => {
+                self.log.borrow_mut().push("E".into());
+                Err(std::io::Error::new(std::io::ErrorKind::Other, "scheduled failure"))
+            }
+            Some(n) => {
+                let k = n.min(buf.len()).min(self.data.len() - self.pos);
+                buf[..k].copy_from_slice(&self.data[self.pos..self.pos + k]);
+                // (whatever else is in the buffer is not part of the answer)
+                for b in buf[k..].iter_mut() {
+                    *b = 0xAA;
+                }
+                self.pos += k;
+                self.log.borrow_mut().push(format!("D{}", hex(&buf[..k])));
+                Ok(k)
+            }
+        }
+    }
+}
+
+pub fn hashes_cases(sink: &mut Sink, r: &mut Rng, n: usize) {
+    use in_toto::crypto::{calculate_hashes, HashAlgorithm};
+    for i in 0..n {
+        let len = match r.below(8) {
+            0 => 0,
+            1 => r.below(70),
+            2 => *r.pick(&[55usize, 56, 63, 64, 65, 111, 112, 119, 120, 127, 128, 129, 1023, 1024, 1025, 2047, 2048, 2049, 4096]),
+            3 => 1000 + r.below(3000),
+            _ => r.below(1500),
+        };
+        let data = r.bytes(len);
+        let sched: Vec<Option<usize>> = match r.below(7) {
+            0 => vec![],                                                       // full buffers
+            1 => (0..len + 2).map(|_| Some(1)).collect(),                      // byte by byte
+            2 => (0..60).map(|_| Some(1 + r.below(130))).collect(),            // short reads
+            3 => (0..40).map(|_| Some(*r.pick(&[1usize, 63, 64, 65, 127, 128, 129, 1024, 4096]))).collect(),
+            4 => (0..30).map(|_| if r.chance(1, 8) { Some(0) } else { Some(1 + r.below(700)) }).collect(), // an early "end"
+            5 => (0..30).map(|_| if r.chance(1, 10) { None } else { Some(1 + r.below(700)) }).collect(),   // a failing read
+            _ => (0..20).map(|_| Some(r.below(2100))).collect(),
+        };
+        let algs: Vec<HashAlgorithm> = match r.below(7) {
+            0 => vec![],
+            1 => vec![HashAlgorithm::Sha256],
+            2 => vec![HashAlgorithm::Sha512],
+            3 => vec![HashAlgorithm::Sha256, HashAlgorithm::Sha256],
+            4 => vec![HashAlgorithm::Sha512, HashAlgorithm::Sha256],
+            _ => vec![HashAlgorithm::Sha256, HashAlgorithm::Sha512],
+        };
+        let log = std::rc::Rc::new(std::cell::RefCell::new(vec![]));
+        let reader = ChunkReader { data: data.clone(), pos: 0, sched, i: 0, log: log.clone() };
+        let a2 = algs.clone();
+        let res = guarded(std::panic::AssertUnwindSafe(move || calculate_hashes(reader, &a2)));
+        let name = |a: &HashAlgorithm| match a {
+            HashAlgorithm::Sha256 => "sha256",
+            HashAlgorithm::Sha512 => "sha512",
+            _ => "other",
+        };
+        let alg_tok = if algs.is_empty() { "-".to_string() } else { algs.iter().map(name).collect::<Vec<_>>().join(",") };
+        let reads = log.borrow().clone();
+        let op = format!("hashes {} {}", alg_tok, reads.join(" ")).trim_end().to_string();
+        let ans = match &res {
+            Err(()) => {
+                sink.oracle(false, "calculate_hashes panicked", &op);
+                continue;
+            }
+            Ok(Err(_)) => "err".to_string(),
+            Ok(Ok((size, m))) => {
+                let mut items: Vec<String> = m.iter().map(|(a, v)| format!("{}={}", name(a), v)).collect();
+                items.sort();
+                // the statement itself: the standard digests of the bytes that were read
+                let mut seen: Vec<u8> = vec![];
+                for t in &reads {
+                    if t == "D-" || t == "E" {
+                        break;
+                    }
+                    seen.extend((2..t.len()).step_by(2).map(|j| u8::from_str_radix(&t[j - 1..j + 1], 16).unwrap()));
+                }
+                sink.oracle(*size as usize == seen.len(), "the size reported by calculate_hashes is not the number of bytes read", &op);
+                for (a, v) in m {
+                    let want = match a {
+                        HashAlgorithm::Sha256 => hex(ring::digest::digest(&ring::digest::SHA256, &seen).as_ref()),
+                        HashAlgorithm::Sha512 => hex(ring::digest::digest(&ring::digest::SHA512, &seen).as_ref()),
+                        _ => continue,
+                    };
+                    sink.oracle(v.to_string() == want, "a digest computed from a stream is not the standard digest of the bytes read", &op);
+                }
+                let want_algs: std::collections::BTreeSet<&str> = algs.iter().map(name).collect();
+                sink.oracle(m.len() == want_algs.len(), "calculate_hashes does not return one digest per requested algorithm", &op);
+                format!("ok {} {}", size, items.join(" ")).trim_end().to_string()
+            }
+        };
+        sink.stat(&format!("hashes/{}", ans.split(' ').next().unwrap()));
+        sink.op(&op, &ans, reads.len() > 2);
+        let _ = i;
+    }
 }
